@@ -1,5 +1,6 @@
 import SJ.Properties.C14
 import SJ.Proofs.SourceLevelB
+import SJ.Proofs.SourceLevelC
 set_option linter.unusedVariables false
 /-
 C14 — source level. The theorems of Properties/C14.lean composed with the source ties of DESIGN §6.3: each statement
@@ -130,5 +131,32 @@ theorem C14_source_gap_skipped (pj : PJ) (i dst : Iter) {a b : Nat} (g : Gap pj 
         (runFun goFuns goIter_PeekNextTag fuel
           { env := envOf "i" { i with off := i.off + (b - a), cur := c }, tape := pj.tape }) :=
   SJ.SourceLevelB.C14_source_gap_skipped pj i dst g hb hl ha fuel hf
+
+open SJ.Generated SJ.GoSem SJ.GoIter SJ.GoSet SJ.Layout SJ.SourceLevelC SJ.EditHistory SJ.WalkLayout SJ.DeleteDoc SJ.GoDelete SJ.GoObject SJ.GoApi SJ.SourceLevelB in
+/-- **Histories of deletions and replacements, source level** (the statement of `C14_history`, for the source-side run).
+    `ops` is any finite sequence of `Array.DeleteElems`, `Object.DeleteElems` and `Set*` calls, each valid in the document as
+    it is when the call is made (`ValidSeqDA`, validity on the document alone: the addressed node is an array resp. an
+    object resp. a value the `Set*` gate admits).  Running the regenerated syntax trees one after the other (`srcDOps`: each
+    call positioned on, and run against, the tape and string buffer the previous call returned), every run returns without
+    error, and the final tape holds exactly `absDOps v ops` — the original document with the selected members removed and
+    the addressed values replaced, in order, survivors at their positions — and is again tight; `Message` and tape length
+    unchanged; the string buffer has grown by exactly the `SetString` arguments.
+    Route: induction over `ops` from the single-step source-level theorems (`srcStep_valid`, `C14_source_array_delete`,
+    `C14_source_object_delete_pred` of SourceLevelB — each the composition of a property theorem with a tie — and the ties
+    of `Iter.Array` / `Iter.Object`), i.e. the induction of `C14_history` redone on the source side; `C14_history` itself is
+    not used, because the source-side run of `Object.DeleteElems` with a key-dependent callback is tied to the model's run
+    with the callback `fun k _ => cbAnswers … k`, which gives the same DOCUMENT (`filterMs_congr`) but is not known to give
+    the same tape word for word.
+    Discharged: the views (`Iter.Array`/`Iter.Object` return the node's view, inside the tape), the answer counts, `BufOK`
+    along the history (`SetString` keeps the buffer below 2^55).  Remaining: `BufOK pj` at the start (Go `int` lengths;
+    needed by `Object.DeleteElems`, which compares keys through `stringByteAt`), `len(tape) < 2^56` (the tie of
+    `Iter.Array`/`Iter.Object` needs `len < 2^63`; the deletions themselves need `< 2^56` and `ValidSeqDA` says so only when
+    there is one), interpreter fuel `2·len(tape) + 7`. -/
+theorem C14_source_history : ∀ (ops : List DOp) (pj : PJ) (v : LVal), Ok pj v → Tight v →
+    ValidSeqDA pj.strings.size pj.tape.size v ops → BufOK pj → pj.tape.size < 2^56 →
+    ∀ (fuel : Nat), 2 * pj.tape.size + 7 ≤ fuel →
+    ∃ pj', srcDOps fuel pj v ops = some pj' ∧ Ok pj' (absDOps v ops) ∧ Tight (absDOps v ops) ∧ pj'.msg = pj.msg ∧
+      pj'.tape.size = pj.tape.size ∧ pj'.strings = pj.strings ++ appendedAllD ops :=
+  SJ.SourceLevelC.C14_source_history 
 
 end SJ.Properties.C14
